@@ -166,9 +166,103 @@ func c19Statements(c *worker.Ctx) (string, []ast.Statement) {
 	return src, stmts
 }
 
+// c19Use is one independent user of the codec: encode a statement list,
+// decode it again, and describe what came back.
+func c19Use(stmts []ast.Statement, single bool) (out string) {
+	defer func() {
+		if v := recover(); v != nil {
+			out = fmt.Sprintf("panic: %v at %s", v, innermostFalcoFrame())
+		}
+	}()
+	var enc []byte
+	var err error
+	if single {
+		enc, err = codec.NewEncoder().Encode(stmts[0])
+	} else {
+		enc, err = codec.NewEncoder().Encodes(stmts)
+	}
+	if err != nil {
+		return "encode error: " + err.Error()
+	}
+	got, err := codec.NewDecoder(bytes.NewReader(enc)).Decode()
+	if err != nil {
+		return fmt.Sprintf("%x\ndecode error: %v", enc, err)
+	}
+	return fmt.Sprintf("%x\n%s", enc, astcmp.Diff(stmts, got))
+}
+
+// runC19Interleaved: independent users of the codec, preempted inside its
+// loops, must each get what they get alone.
+func runC19Interleaved(c *worker.Ctx) {
+	res := c.Res
+	n := 2 + c.T.Draw(3)
+	type user struct {
+		src    string
+		stmts  []ast.Statement
+		single bool
+	}
+	var us []user
+	for i := 0; i < n; i++ {
+		src, stmts := c19Statements(c)
+		if len(stmts) == 0 {
+			continue
+		}
+		u := user{src: src, stmts: stmts, single: c.T.Bool(1, 2)}
+		if u.single {
+			k := c.T.Draw(len(stmts))
+			u.stmts = stmts[k : k+1]
+		}
+		us = append(us, u)
+	}
+	if len(us) < 2 {
+		res.Sig = "il-unparseable"
+		return
+	}
+	alone := make([]string, len(us))
+	for i, u := range us {
+		alone[i] = c19Use(u.stmts, u.single)
+	}
+	every := []int{1, 1, 3, 17}[c.T.Draw(4)]
+	got := make([]string, len(us))
+	var tasks []*coTask
+	for i := range us {
+		i := i
+		tasks = append(tasks, &coTask{name: fmt.Sprintf("user-%d", i), fn: func() { got[i] = c19Use(us[i].stmts, us[i].single) }})
+	}
+	s := runInterleaved(c.T, every, tasks)
+	res.Sig = fmt.Sprintf("il|%d|%d|%s", len(us), every, kindSig(us[0].stmts))
+	res.Nontrivial = s.Switches > 0
+	if s.Switches > 0 {
+		res.Probe("users_interleaved_inside_codec")
+	}
+	for i, tk := range tasks {
+		what := ""
+		switch {
+		case tk.panicV != nil:
+			what = fmt.Sprintf("crashed: %v at %s", tk.panicV, tk.stack)
+		case got[i] != alone[i]:
+			what = "got a different result: " + firstLineDiff(alone[i], got[i])
+		}
+		if what != "" {
+			res.Violate("C19/independent-users", "C19/interleaved-users", fmt.Sprintf("%d independent users of the codec ran interleaved (%s, preemption every %d loop iterations); user %d %s\nsource of that user:\n%s", len(us), s, every, i, what, clipSrc(us[i].src)))
+			break
+		}
+	}
+	if c.Render {
+		res.Rendering = map[string]any{"mode": "interleaved users", "users": len(us), "preempt_every_loop_iterations": every, "schedule": s.String()}
+	}
+}
+
 func runC19(c *worker.Ctx) {
 	res := c.Res
-	mode := c.T.Draw(4) // 0 round trip, 1 faulty decode, 2 plugin request path, 3 corpus cut
+	mode := c.T.Draw(5) // 0 round trip, 1 faulty decode, 2 plugin request path, 3 corpus cut, 4 interleaved users (thinned)
+	if mode == 4 {
+		if c.T.Bool(1, 6) {
+			runC19Interleaved(c)
+			return
+		}
+		mode = c.T.Draw(3)
+	}
 	if mode == 3 {
 		c19CorpusCut(c)
 		return
